@@ -1,9 +1,11 @@
-(** C14 -- finite obligations over the tables regenerated from the current IAPWS97.py
+(** C14 -- statements of the finite obligations over the tables regenerated from the current IAPWS97.py
     (Gen/GenIAPWS.v: literal data by AST; Gen/GenReads.v: the slots the real functions read,
-    recorded by running them with an instrumented power_array). *)
-From Coq Require Import ZArith QArith List Bool Lia Reals.
+    recorded by running them with an instrumented power_array).
+    Definitions only: the obligations are discharged in TablesOk.v, so that a table that breaks
+    one of them does not take the definitions (used by the correspondence case files) down. *)
+From Coq Require Import ZArith QArith Qabs List Bool Lia Reals.
 From Gen Require Import GenIAPWS GenReads.
-From P Require Import Chain.
+From P Require Import Chain SpecTables.
 Import ListNotations.
 Open Scope Z_scope.
 
@@ -12,8 +14,6 @@ Definition all_tables : list table := [pc1; tc1; tc2; pc2; tsc2; tc3; dc3; ticv;
 
 Definition chains_ok_b : bool := forallb chain_wf all_tables.
 
-Lemma chains_ok_true : chains_ok_b = true.
-Proof. vm_compute. reflexivity. Qed.
 
 (** each read recorded from the real functions: (function, table number, indices read) *)
 Definition read_ok (r : Z * list Z) : bool :=
@@ -25,8 +25,6 @@ Definition read_ok (r : Z * list Z) : bool :=
 Definition used_powers_defined_b : bool :=
   forallb read_ok (cowat_reads ++ supst_reads ++ super_reads ++ visc_reads).
 
-Lemma used_powers_defined_true : used_powers_defined_b = true.
-Proof. vm_compute. reflexivity. Qed.
 
 (** zip() truncates silently: the exponent and coefficient arrays of each sum have one length *)
 Definition lengths_ok_b : bool :=
@@ -38,18 +36,11 @@ Definition lengths_ok_b : bool :=
   && (len ivs =? len jvs) && (len ivs =? len h1v_Q) && (len ivs =? len h1v_F)
   && (4 <=? len h0v_Q) && (10 <=? len nr4_Q) && (5 <=? len nr23_Q).
 
-Lemma lengths_ok_true : lengths_ok_b = true.
-Proof. vm_compute. reflexivity. Qed.
 
 (** ** The statements the property file closes *)
 
 Definition chain_tables_wf : Prop := forall tbl, In tbl all_tables -> chain_wf tbl = true.
 
-Lemma chain_tables_wf_proof : chain_tables_wf.
-Proof.
-  intros tbl Hin. pose proof chains_ok_true as H. unfold chains_ok_b in H.
-  rewrite forallb_forall in H. apply H. exact Hin.
-Qed.
 
 (** every chain table of the current source computes true powers: for each table, each
     non-zero real x and each defined slot k, the model of power_array holds x^k there *)
@@ -58,10 +49,6 @@ Definition power_arrays_correct : Prop :=
   exists a, power_array_model 0%R 1%R Rmult Rdiv x tbl = Some a /\
             forall k, In k (defined tbl) -> rd a k = Some (powerRZ x k).
 
-Lemma power_arrays_correct_proof : power_arrays_correct.
-Proof.
-  intros tbl Hin x Hx. apply power_array_correct; [apply chain_tables_wf_proof; exact Hin | exact Hx].
-Qed.
 
 (** every slot any of cowat / supst / super / visc reads from a power array is a defined slot
     of the table that array was built from (so no sum ever reads a zero-initialised slot) *)
@@ -70,20 +57,36 @@ Definition used_powers_defined : Prop :=
   exists tbl, nth_error all_tables (Z.to_nat (fst r)) = Some tbl /\
               forall k, In k (snd r) -> In k (defined tbl).
 
-Lemma used_powers_defined_proof : used_powers_defined.
-Proof.
-  intros r Hin. pose proof used_powers_defined_true as H. unfold used_powers_defined_b in H.
-  rewrite forallb_forall in H. specialize (H r Hin). unfold read_ok in H.
-  destruct (nth_error all_tables (Z.to_nat (fst r))) as [tbl|]; [|discriminate].
-  exists tbl. split; [reflexivity|]. apply andb_true_iff in H as [_ H].
-  rewrite forallb_forall in H. intros k Hk. specialize (H k Hk).
-  unfold zmem in H. rewrite existsb_exists in H. destruct H as [y [Hy E]].
-  apply Z.eqb_eq in E. subst. exact Hy.
-Qed.
 
-(** non-vacuity: the tables and the recorded reads are not empty *)
-Example tables_nontrivial :
-  forallb (fun t : table => (2 <=? length t)%nat) all_tables = true /\
-  (length (cowat_reads ++ supst_reads ++ super_reads ++ visc_reads) >= 10)%nat /\
-  forallb (fun r : Z * list Z => (5 <=? length (snd r))%nat) (cowat_reads ++ supst_reads ++ super_reads ++ visc_reads) = true.
-Proof. vm_compute. repeat split; auto 20. Qed.
+
+(** ** Coefficients and exponents against the reference snapshot (SpecTables.v) *)
+(** the double is the one nearest to the reference decimal: relative distance <= 2^-53 *)
+Definition near_ref (g r : Q) : bool := Qle_bool (Qabs (g - r)) (Qabs r * (1 # 9007199254740992))%Q.
+Fixpoint all2 {A B} (f : A -> B -> bool) (a : list A) (b : list B) : bool :=
+  match a, b with
+  | [], [] => true
+  | x :: a', y :: b' => f x y && all2 f a' b'
+  | _, _ => false
+  end.
+Definition tables_match_reference_b : bool :=
+  all2 near_ref nr1_Q ref_nr1 && all2 near_ref n0r2_Q ref_n0r2 && all2 near_ref nr2_Q ref_nr2
+  && all2 near_ref nr3_Q ref_nr3 && all2 near_ref nr4_Q ref_nr4 && all2 near_ref nr23_Q ref_nr23
+  && all2 near_ref h0v_Q ref_h0v && all2 near_ref h1v_Q ref_h1v
+  && all2 Z.eqb ir1 ref_ir1 && all2 Z.eqb jr1 ref_jr1 && all2 Z.eqb j0r2 ref_j0r2
+  && all2 Z.eqb ir2 ref_ir2 && all2 Z.eqb jr2 ref_jr2 && all2 Z.eqb ir3 ref_ir3 && all2 Z.eqb jr3 ref_jr3
+  && all2 Z.eqb ivs ref_ivs && all2 Z.eqb jvs ref_jvs
+  && all2 near_ref [rconst_Q; tc_k_Q; tcriticalk_Q; dcritical_Q; pcritical_Q; pstar1_Q; tstar1_Q; pstar2_Q; tstar2_Q; pstar4_Q; mustar_Q;
+                    dstar3_Q; tstar3_Q]
+                   [ref_rconst; ref_tc_k; ref_tcriticalk; ref_dcritical; ref_pcritical; ref_pstar1; ref_tstar1; ref_pstar2; ref_tstar2; ref_pstar4; ref_mustar;
+                    ref_dcritical; ref_tcriticalk].
+
+(** which array departs (for the failure report) *)
+Definition reference_mismatches : list nat :=
+  let chk (k : nat) (b : bool) := if b then [] else [k] in
+  chk 1%nat (all2 near_ref nr1_Q ref_nr1) ++ chk 2%nat (all2 near_ref n0r2_Q ref_n0r2) ++ chk 3%nat (all2 near_ref nr2_Q ref_nr2)
+  ++ chk 4%nat (all2 near_ref nr3_Q ref_nr3) ++ chk 5%nat (all2 near_ref nr4_Q ref_nr4) ++ chk 6%nat (all2 near_ref nr23_Q ref_nr23)
+  ++ chk 7%nat (all2 near_ref h0v_Q ref_h0v) ++ chk 8%nat (all2 near_ref h1v_Q ref_h1v)
+  ++ chk 11%nat (all2 Z.eqb ir1 ref_ir1 && all2 Z.eqb jr1 ref_jr1)
+  ++ chk 12%nat (all2 Z.eqb j0r2 ref_j0r2 && all2 Z.eqb ir2 ref_ir2 && all2 Z.eqb jr2 ref_jr2)
+  ++ chk 13%nat (all2 Z.eqb ir3 ref_ir3 && all2 Z.eqb jr3 ref_jr3)
+  ++ chk 14%nat (all2 Z.eqb ivs ref_ivs && all2 Z.eqb jvs ref_jvs).
